@@ -92,7 +92,19 @@ def gen_one(rng, tier):
         dim = transforms[t]['dim']
         aug = (prop == 'rotation' and dim == 2 and rng.random() < 0.25)
         ops.append([t, prop, _value(rng, dim, prop), aug])
-    return {'transforms': transforms, 'listeners': listeners, 'ops': ops}
+    # a listener may, when notified, assign the same property of ANOTHER
+    # transform (a parent moving its child): [listener, transform, value]
+    chains = []
+    if nt >= 2 and listeners and rng.random() < 0.3:
+        li = rng.randrange(len(listeners))
+        others = [t for t in range(nt) if t not in listeners[li]['on']]
+        if others:
+            target = rng.choice(others)
+            prop = rng.choice(listeners[li]['events'])
+            chains.append([li, target, prop,
+                           _value(rng, transforms[target]['dim'], prop)])
+    return {'transforms': transforms, 'listeners': listeners, 'ops': ops,
+            'chains': chains}
 
 
 def gen_cases(tier, seed):
@@ -127,6 +139,19 @@ def run_case(case):
         for prop in events:
             def cb(self, value, _prop=prop):
                 log.append((self.uid, _prop, value))
+                for li, target, cprop, raw in case.get('chains', []):
+                    if li == self.uid and cprop == _prop:
+                        # nested assignment on another transform; its own
+                        # notifications are judged separately
+                        t2 = transforms[target]
+                        v2 = _mk(desper, case['transforms'][target]['dim'],
+                                 raw)
+                        mark = len(log)
+                        setattr(t2, cprop, v2)
+                        inner = log[mark:]
+                        del log[mark:]
+                        nested.append((target, cprop, getattr(t2, cprop),
+                                       inner))
             ns[EVENTS[prop]] = cb
         cls = desper.event_handler(*[EVENTS[p] for p in events])(
             type(f'L{uid}', (), ns))
@@ -136,6 +161,7 @@ def run_case(case):
 
     classes = {2: desper.Transform2D, 3: desper.Transform3D}
     transforms = []
+    nested = []         # (transform, prop, read-back, notifications)
     for spec in case['transforms']:
         dim = spec['dim']
         kwargs = {p: _mk(desper, dim, v) for p, v in spec['ctor'].items()}
@@ -180,6 +206,7 @@ def run_case(case):
         value = _mk(desper, dim, raw)
         snapshot = [[getattr(x, p) for p in PROPS] for x in transforms]
         del log[:]
+        del nested[:]
         if aug:
             assigned = t.rotation + value
             t.rotation += value
@@ -246,10 +273,29 @@ def run_case(case):
                    for uid in expected_listeners):
                 nontrivial = True
 
+        # assignments made from inside a notification (re-entrancy)
+        touched = {(ti, prop)}
+        for target, cprop, back2, inner in nested:
+            touched.add((target, cprop))
+            res.stats['nested_assignments_checked'] += 1
+            want2 = collections_counter(
+                uid for uid, spec in enumerate(case['listeners'])
+                if target in spec['on'] and cprop in spec['events'])
+            got2 = collections_counter(u for u, p, v in inner if p == cprop)
+            if got2 != want2 or any(not (v == back2) or p != cprop
+                                    for u, p, v in inner):
+                res.div(at, 'nested-notification', 'an assignment made from '
+                        'inside a notification (on another transform) did '
+                        'not notify its listeners exactly once with the '
+                        'stored value', expected=[dict(want2), repr(back2)],
+                        observed=[list(map(repr, e)) for e in inner])
+                break
+        if res.divs:
+            break
         # nothing else changed
         for xi, x in enumerate(transforms):
             for pi, p in enumerate(PROPS):
-                if xi == ti and p == prop:
+                if (xi, p) in touched:
                     continue
                 res.stats['unchanged_comparisons'] += 1
                 now = getattr(x, p)
